@@ -249,6 +249,131 @@ theorem inert_of_all_plain {m : Mode} {v : List Char}
     have hc := h c (List.mem_cons_self ..)
     exact .plain hc.1 hc.2 (ih (fun c' hc' => h c' (List.mem_cons_of_mem _ hc')))
 
+/-! ### bare arguments that may contain backslashes (match paths) -/
+
+theorem step_bare_open {st : LexSt} (hm : st.mode = .bare) (he : st.esc = false) (hd : st.dollar = false) :
+    step st '{' = .ok ({ st with mode := .space, dollar := false, cur := [], pending := 0 },
+      [.word (unescape st.cur) false, .open]) := by
+  obtain ⟨mode, esc, dollar, cur, pending⟩ := st
+  simp only at hm he hd
+  subst hm he hd
+  simp [step, emitWord, isWs]
+
+theorem step_space_open {st : LexSt} (hm : st.mode = .space) (he : st.esc = false) (hp : st.pending ≠ 0) :
+    step st '{' = .ok ({ st with pending := 0 }, [.open]) := by
+  obtain ⟨mode, esc, dollar, cur, pending⟩ := st
+  simp only at hm he hp
+  subst hm he
+  simp [step, isWs, hp]
+
+/-- A string without white space, `;`, `{` (backslashes allowed) is swallowed into the current bare token; at its
+end the lexer is either between characters (`esc = false`) or has a pending backslash (then `dollar = false`). -/
+theorem lexFrom_nonterm_bare {v : List Char} (hv : ∀ c ∈ v, isTerm .bare c = false) :
+    ∀ (st : LexSt), st.mode = .bare → (st.esc = true → st.dollar = false) →
+      ∃ e d, lexFrom st v = .ok ({ st with cur := st.cur ++ v, esc := e, dollar := d }, []) ∧
+        (e = true → d = false) := by
+  induction v with
+  | nil =>
+    intro st _ hinv
+    exact ⟨st.esc, st.dollar, by simp [lexFrom], hinv⟩
+  | cons c t ih =>
+    intro st hm hinv
+    have hc := hv c (List.mem_cons_self ..)
+    have ht : ∀ c' ∈ t, isTerm .bare c' = false := fun c' h' => hv c' (List.mem_cons_of_mem _ h')
+    by_cases he : st.esc = true
+    · have h1 := step_escaped (c := c) hm (.inr (.inr rfl)) he
+      obtain ⟨e, d, h2, hinv2⟩ := ih ht { st with esc := false, cur := st.cur ++ [c] } hm (by simp)
+      refine ⟨e, d, ?_, hinv2⟩
+      simp only [lexFrom, h1, h2]
+      simp [List.append_assoc]
+    · have he' : st.esc = false := by simpa using he
+      by_cases hb : c = '\\'
+      · subst hb
+        have h1 := step_backslash hm (.inr (.inr rfl)) he'
+        obtain ⟨e, d, h2, hinv2⟩ :=
+          ih ht { st with esc := true, dollar := false, cur := st.cur ++ ['\\'] } hm (fun _ => rfl)
+        refine ⟨e, d, ?_, hinv2⟩
+        simp only [lexFrom, h1, h2]
+        simp [List.append_assoc]
+      · obtain ⟨d1, h1⟩ := step_plain hm (.inr (.inr rfl)) he' hc hb
+        obtain ⟨e, d, h2, hinv2⟩ :=
+          ih ht { st with cur := st.cur ++ [c], dollar := d1 } hm (by simp [he'])
+        refine ⟨e, d, ?_, hinv2⟩
+        simp only [lexFrom, h1, h2]
+        simp [List.append_assoc]
+
+/-- **Location path hole** (`location {{ path }} {`): a value that starts a token and contains no white space,
+`;`, `{` — backslashes allowed, even a trailing one — followed by the template's ` {` is exactly one word and the
+opening brace; the word is the value, or the value with the swallowed space; the state afterwards does not
+depend on the value. -/
+theorem hole_bare_path_open {st : LexSt} {c : Char} {t post : List Char} (hm : st.mode = .space)
+    (he : st.esc = false) (hc : startOK c = true) (ht : ∀ c' ∈ t, isTerm .bare c' = false) :
+    ∃ w, lexFrom st (c :: t ++ ' ' :: '{' :: post) =
+        prepend [.word w false, .open]
+          (lexFrom { st with mode := .space, dollar := false, cur := [], pending := 0 } post) ∧
+      (w = unescape (c :: t) ∨ w = unescape (c :: t ++ [' '])) := by
+  have h0 := step_space_start hm he hc
+  obtain ⟨e, d, h1, hinv⟩ := lexFrom_nonterm_bare ht
+    { st with mode := .bare, cur := [c], dollar := (c == '$') } rfl (by simp [he])
+  rw [List.cons_append, lexFrom_cons_ok h0, lexFrom_append_ok h1, prepend_prepend]
+  cases e with
+  | false =>
+    have h2 := step_bare_ws (c := ' ')
+      (st := { st with mode := .bare, cur := [c] ++ t, esc := false, dollar := d }) rfl rfl (by decide)
+    have h3 := step_space_open
+      (st := { st with mode := .space, esc := false, dollar := false, cur := [], pending := st.pending + 1 })
+      rfl rfl (by simp)
+    refine ⟨unescape (c :: t), ?_, .inl rfl⟩
+    rw [lexFrom_cons_ok h2, lexFrom_cons_ok h3, prepend_prepend, prepend_prepend]
+    simp [he]
+  | true =>
+    have hd : d = false := hinv rfl
+    subst hd
+    have h2 := step_escaped (c := ' ')
+      (st := { st with mode := .bare, cur := [c] ++ t, esc := true, dollar := false }) (m := .bare) rfl
+      (.inr (.inr rfl)) rfl
+    have h3 := step_bare_open
+      (st := { st with mode := .bare, cur := [c] ++ t ++ [' '], esc := false, dollar := false }) rfl rfl rfl
+    refine ⟨unescape (c :: t ++ [' ']), ?_, .inr rfl⟩
+    rw [lexFrom_cons_ok h2, lexFrom_cons_ok h3, prepend_prepend, prepend_prepend]
+    simp [he]
+
+/-- a non-terminating string followed by an inert non-empty... literal: the backslashes of the value can only
+escape characters of the value or the first character of the literal, so the concatenation is inert when the
+literal is plain and has at least two characters -/
+theorem inert_nonterm_append {v l : List Char} (hv : ∀ c ∈ v, isTerm .bare c = false)
+    (hl : ∀ c ∈ l, isTerm .bare c = false ∧ c ≠ '\\') (hlen : 2 ≤ l.length) : Inert .bare (v ++ l) := by
+  have hl' : Inert .bare l := inert_of_all_plain hl
+  -- strong induction on the length of v (two characters may be consumed at once)
+  suffices h : ∀ n (v : List Char), v.length ≤ n → (∀ c ∈ v, isTerm .bare c = false) → Inert .bare (v ++ l) from
+    h v.length v (Nat.le_refl _) hv
+  intro n
+  induction n with
+  | zero =>
+    intro v hn _
+    have : v = [] := List.eq_nil_of_length_eq_zero (Nat.le_zero.mp hn)
+    subst this; simpa using hl'
+  | succ n ih =>
+    intro v hn hv
+    cases v with
+    | nil => simpa using hl'
+    | cons c t =>
+      have hc := hv c (List.mem_cons_self ..)
+      have ht : ∀ c' ∈ t, isTerm .bare c' = false := fun c' h' => hv c' (List.mem_cons_of_mem _ h')
+      by_cases hb : c = '\\'
+      · subst hb
+        cases t with
+        | nil =>
+          -- the backslash escapes the first character of the literal
+          match l, hl, hlen with
+          | a :: b :: r, hl, _ =>
+            exact .esc (inert_of_all_plain (fun c' h' => hl c' (List.mem_cons_of_mem _ h')))
+        | cons d t' =>
+          have : Inert .bare (t' ++ l) :=
+            ih t' (by simp at hn; omega) (fun c' h' => ht c' (List.mem_cons_of_mem _ h'))
+          exact .esc this
+      · exact .plain hc hb (ih t (by simp at hn; omega) ht)
+
 /-! ### no variable interpolation -/
 
 /-- `unescape` only drops backslashes or maps `\\t \\r \\n` to control characters: it never creates a `$` -/
